@@ -9,7 +9,9 @@ C15 — failure probability = analytic load/strength overlap.  Theorems about `M
     (`overlap_integral_eq_closed_form`, from `gaussianReal_conv_gaussianReal`).
 
 Admissible inputs: medians and loads positive (the code takes `log10`), `strength_std > 0`, `load_std ≥ 0` in the
-closed form (`> 0` for the integral; the repaired code divides by `load_std`: `load_std = 0.0` raises).
+closed form (`> 0` for the integral; since /repo 2da931b `load_std = 0.0` is the deterministic branch of the code:
+`pf_simple_load` if the load lies within the limits, else 0 - `pf_norm_load_code_zero_scatter`; after 2a91979 it raised
+ZeroDivisionError; `pf_norm_load_code_eq_window_integral` and `pf_norm_load_code_in_unit_interval` carry the hypothesis `0 < ls`).
 
 What the code COMPUTES (as opposed to the closed form it is supposed to equal) is `pfNormLoadCode` of the model with
 `quad := ` the exact interval integral: `pf_norm_load_code_eq_window_integral` (every branch of the rule
